@@ -15,11 +15,11 @@ export GOCACHE="${VERIF_GOCACHE:-$HERE/.cache/go-build}"
 mkdir -p "$GOCACHE" "$HERE/.cache"
 
 # which checks need the overlay (instrumented) binary
-SCHED_CHECKS=" C06 C08 "
+SCHED_CHECKS=" C06 "
 
 # checks with two parts: a schedule-exploring part (overlay binary) whose coverage is merged into the
 # API-level part (plain binary), which writes the evidence and decides the exit code
-HYBRID_CHECKS=" C04 C07 C11 C19 "
+HYBRID_CHECKS=" C04 C07 C08 C11 C19 "
 
 # scratch root: tmpfs if there is one, never something a registered command depends on
 mkscratch() {
@@ -88,6 +88,7 @@ check)
     build_plain || { echo "INFRA: build failed for $id" >&2; exit 3; }
     if [[ "$HYBRID_CHECKS" == *" $id "* ]]; then
       build_sched || { echo "INFRA: build of instrumented binary failed for $id" >&2; exit 3; }
+      if [ "$id" = "C08" ] && build_race 2>/dev/null; then export VERIF_RACEPASS="$SCR/build/racepass"; fi
       export VERIF_PARTIAL="$SCR/build/partial.json"
       "$SCR/build/sched.test" -test.run '^TestDriver$' -test.timeout 0 -verif.check "$id" -verif.tier "$tier" -verif.partial "$VERIF_PARTIAL" || echo "INFRA: schedule part of $id exited $?" >&2
     fi
